@@ -5,6 +5,7 @@ import (
 	"fmt"
 	"net/url"
 	"strconv"
+	"strings"
 
 	"context"
 
@@ -253,7 +254,11 @@ func (sel *Selection) Constrain(params string) (*Selection, error) {
 		return nil, err
 	}
 	copy := *sel
-	if err = BuildConstraints(&copy, dummy.Query()); err != nil {
+	params2, err := parseQueryParams(dummy.RawQuery)
+	if err != nil {
+		return nil, err
+	}
+	if err = BuildConstraints(&copy, params2); err != nil {
 		return nil, err
 	}
 	copy.Context = copy.Constraints.ContextConstraint(sel)
@@ -261,6 +266,31 @@ func (sel *Selection) Constrain(params string) (*Selection, error) {
 }
 
 var errMaxDepthZeroNotAllowed = errors.New("depth zero is not allowed")
+
+// parseQueryParams splits the parameters of a request at '&' only. The ';' that url.Query()
+// takes offence at (it silently drops such a parameter) separates the paths of fields
+// and fc.xfields.
+func parseQueryParams(rawQuery string) (map[string][]string, error) {
+	params := make(map[string][]string)
+	for _, pair := range strings.Split(rawQuery, "&") {
+		if pair == "" {
+			continue
+		}
+		name, value := pair, ""
+		if eq := strings.IndexRune(pair, '='); eq >= 0 {
+			name, value = pair[:eq], pair[eq+1:]
+		}
+		name, err := url.QueryUnescape(name)
+		if err != nil {
+			return nil, fmt.Errorf("%w. %s", fc.BadRequestError, err)
+		}
+		if value, err = url.QueryUnescape(value); err != nil {
+			return nil, fmt.Errorf("%w. %s", fc.BadRequestError, err)
+		}
+		params[name] = append(params[name], value)
+	}
+	return params, nil
+}
 
 func BuildConstraints(sel *Selection, params map[string][]string) error {
 	if len(params) == 0 {
